@@ -8,6 +8,9 @@ import re
 import core
 from core import Stream, hexs, unhex
 
+import c12_translate as T          # regenerates lean/PV/Gen/C12{Schema,FoldProg,…}.lean from ast/src/gen/*.rs
+from props import c12 as C12       # Debug text -> generic tree words (the encoding the C12 driver reads)
+
 ID = "C13"
 DESIGN_REF = "DESIGN.md section 5, C13; design/C13.md"
 LEAN_TARGETS = ["PV.C13.Thm"]
@@ -157,10 +160,74 @@ def _node_problems(ref, d):
     return probs
 
 
+_FNODE = re.compile(r"^([A-Za-z]+):(\d+)-(\d+):(\S+)$")
+
+# real trees seen by the `fold` streams: how many satisfy SrcOrdered (as observed on the real side: forward,
+# panic-free fold on which both locators agree; the model side prints decide (SrcOrdered …) in the same place)
+ORDERED_STATS = {"trees": 0, "src_ordered": 0, "not_src_ordered": 0, "not_src_ordered_examples": []}
+
+
+def _parse_fold(out):
+    """answer of a `fold` request -> the same dictionary `_parse_locate` gives for a `locate` answer"""
+    m = re.match(r"ops=(\S+) fwd=(true|false) ordered=(true|false) lin=(ok|panic) nodes=(\S+) rnd=(\S+)$", out)
+    if not m:
+        return None
+    trace = [] if m.group(1) == "-" else m.group(1).split(";")
+    lin = m.group(4)
+    if lin == "panic" and trace:
+        trace[-1] += "=none"
+    rnd = [] if m.group(6) in ("-", "panic") else m.group(6).split(";")
+    nodes = []
+    if m.group(5) != "-":
+        items = m.group(5).split(";")
+        if len(items) != len(rnd):
+            return None
+        for item, r in zip(items, rnd):
+            mm = _FNODE.match(item)
+            if not mm:
+                return None
+            nodes.append((mm.group(1), int(mm.group(2)), int(mm.group(3)), mm.group(4), r))
+    return {"walk": "ok", "lin": lin, "rnd": "panic" if m.group(6) == "panic" else "ok", "nodes": nodes, "trace": trace,
+            "fwd": m.group(2) == "true", "ordered": m.group(3) == "true"}
+
+
+def _judge_located(ref, d):
+    if d["rnd"] != "ok":
+        return "RandomLocator fold panicked"
+    probs = _node_problems(ref, d)
+    if d["lin"] != "ok":
+        last = d["trace"][-1] if d["trace"] else "?"
+        return f"LinearLocator fold panicked at call {len(d['trace']) - 1} ({last}); trace so far: {';'.join(d['trace'][-6:])}"
+    if probs:
+        k, s, e, which, got, exp = probs[0]
+        return f"{which}: node {k} {s}..{e} located {got}, text says {exp} ({len(probs)} wrong positions)"
+    return None
+
+
 def oracle(req, out):
     ws = req.split()
     if out in ("(panic)", "(abort)", "(timeout)"):
         return "implementation " + out
+    if ws[0] == "fold":
+        if out == "wrong-build":
+            return "harness build flavour does not match the request"
+        d = _parse_fold(out)
+        if d is None:
+            return f"unparsable answer: {out[:80]}"
+        src = unhex(ws[3])
+        ORDERED_STATS["trees"] += 1
+        ORDERED_STATS["src_ordered" if d["ordered"] else "not_src_ordered"] += 1
+        if not d["ordered"] and len(ORDERED_STATS["not_src_ordered_examples"]) < 6:
+            ORDERED_STATS["not_src_ordered_examples"].append(src[:60].decode("utf-8", "replace"))
+        f = _judge_located(Ref(src), d)
+        if f:
+            return f
+        if not d["fwd"]:
+            return ("the fold drives the forward-only locator with a history that is not forward: "
+                    + _describe(_first_not_forward(src, d["trace"]), d["trace"]))
+        if not d["ordered"]:
+            return "the tree is not SrcOrdered although the fold was forward and every position is right"
+        return None
     if ws[0] == "locate":
         b = unhex(ws[2])
         ref = Ref(b)
@@ -184,16 +251,7 @@ def oracle(req, out):
             return "unparsable answer"
         if d["walk"] != "ok":
             return "harness could not pair the located tree with the plain tree"
-        if d["rnd"] != "ok":
-            return "RandomLocator fold panicked"
-        probs = _node_problems(ref, d)
-        if d["lin"] != "ok":
-            last = d["trace"][-1] if d["trace"] else "?"
-            return f"LinearLocator fold panicked at call {len(d['trace']) - 1} ({last}); trace so far: {';'.join(d['trace'][-6:])}"
-        if probs:
-            k, s, e, which, got, exp = probs[0]
-            return f"{which}: node {k} {s}..{e} located {got}, text says {exp} ({len(probs)} wrong positions)"
-        return None
+        return _judge_located(ref, d)
     if ws[0] == "locseq":
         if out == "wrong-build":
             return "harness build flavour does not match the request"
@@ -286,7 +344,7 @@ def _source_of(req):
     ws = req.split()
     if ws[0] == "locate":
         return unhex(ws[2])
-    if ws[0] == "trace":
+    if ws[0] in ("trace", "fold"):
         return unhex(ws[3])
     return None
 
@@ -313,8 +371,10 @@ def classify(req, impl_out, model_out, failure):
     src = _source_of(req)
     if src is None:
         return None
-    if ws[0] == "locate":
-        d = _parse_locate(impl_out or "")
+    if ws[0] == "fold" and model_out is not None and model_out != impl_out:
+        return None         # the fold-order model mirrors the code as it is: a disagreement is never "known"
+    if ws[0] in ("locate", "fold"):
+        d = _parse_locate(impl_out or "") if ws[0] == "locate" else _parse_fold(impl_out or "")
         if d is None or d["walk"] != "ok" or d["rnd"] != "ok":
             return None
         ref = Ref(src)
@@ -888,9 +948,64 @@ def _trace_requests(locate_reqs, outs, max_cost=None, flavour="d"):
     return reqs
 
 
+_state = {}
+
+
+def _schema_res():
+    """translator output (node kinds, field types): needed to turn `{:?}` text into the generic tree"""
+    if "res" not in _state:
+        try:
+            _state["res"] = T.translate()
+        except T.TranslateError:
+            _state["res"] = T.translate_schema_only()
+    return _state["res"]
+
+
+def pre_build(ctx):
+    """The fold-order model interprets the fold program regenerated from ast/src/gen/fold.rs: regenerate it
+    (same translator and files as C12; rewritten only when the Rust source changed)."""
+    _state.pop("res", None)
+    res = T.translate()            # raises TranslateError on any unrecognised shape
+    _state["res"] = res
+    changed = T.emit(res)
+    return [("translate ast/src/gen/{generic,fold}.rs -> lean/PV/Gen/C12{Schema,FoldProg}.lean (fold order of the model)",
+             True, f"{len(res.schema.kinds)} node kinds; rewritten: {changed or 'nothing'}")]
+
+
+def _fold_requests(hbin, locate_reqs, outs, jobs, max_cost=None, flavour="d"):
+    """`fold` requests for the answered `locate` requests that parsed: the request carries the real tree (from the
+    harness' `tree` answer, converted type-directed by the translated schema) for the Lean driver"""
+    res = _schema_res()
+    picked = []
+    for rq, out in zip(locate_reqs, outs):
+        d = _parse_locate(out)
+        if d is None:
+            continue
+        ws = rq.split()
+        n = len(unhex(ws[2]))
+        if max_cost is not None and n * max(1, len(d["trace"])) > max_cost:
+            continue
+        picked.append(ws)
+    dbgs = core.run_lines([hbin], [f"tree {ws[1]} {ws[2]}" for ws in picked], jobs=jobs)
+    reqs = []
+    for ws, dbg in zip(picked, dbgs):
+        if not re.match(r"(Module|Expression|Interactive)\(", dbg):
+            continue
+        try:
+            words = C12.debug_to_words(res, dbg)
+        except (C12.DebugError, IndexError) as e:
+            raise RuntimeError(f"Debug text of {unhex(ws[2])[:60]!r} not understood: {e}")
+        reqs.append(f"fold {flavour} {ws[1]} {ws[2]} {' '.join(words)}")
+    return reqs
+
+
 def streams(ctx):
     out = []
     quick = ctx.quick
+    for k in ("trees", "src_ordered", "not_src_ordered"):
+        ORDERED_STATS[k] = 0
+    ORDERED_STATS["not_src_ordered_examples"] = []
+    ctx.extra["src_ordered_on_real_trees"] = ORDERED_STATS
     jobs = 4 if quick else 16
     rc, log, hbin_d = core.cargo_build(HARNESS["bin"], HARNESS["features"])
     have_d = rc == 0
@@ -899,7 +1014,7 @@ def streams(ctx):
         rc, log, hbin_r = core.cargo_build(HARNESS_R["bin"], HARNESS_R["features"])
         have_r = rc == 0
 
-    def located(name, srcs, kind, note="", modes=None, max_cost=None, tr_note="", flavour="d"):
+    def located(name, srcs, kind, note="", modes=None, max_cost=None, tr_note="", flavour="d", fold_cost=None):
         """a `locate` stream judged by the oracle, and the `trace` stream derived from its answers"""
         have, hbin = (have_d, hbin_d) if flavour == "d" else (have_r, hbin_r)
         hs = None if flavour == "d" else HARNESS_R
@@ -917,6 +1032,12 @@ def streams(ctx):
             tr = _trace_requests(reqs, ans, max_cost=max_cost, flavour=flavour)
             out.append(Stream(name + "-trace", tr, kind=kind, harness=hs,
                               note="recorded call sequence of the real LinearLocator replayed through the model" + tr_note))
+            fr = _fold_requests(hbin, reqs, ans, jobs, max_cost=fold_cost, flavour=flavour)
+            out.append(Stream(name + "-fold", fr, kind=kind, harness=hs,
+                              note="fold-order model (regenerated fold program + LinearLocator overrides) on the tree the "
+                                   "real parser produced: call history, Forward, SrcOrdered and the located trees of both "
+                                   "locators, byte-identical with the real fold" + tr_note,
+                              nontrivial=lambda r: r.split()[3] != "-"))
 
     # 1. corpus: constructs whose tree order differs from source order, in every line-ending/BOM variant
     corpus = []
@@ -1031,7 +1152,7 @@ def streams(ctx):
         srcs.append(b)
     located("stdlib", srcs, "corpus",
             note=f"{len(srcs)} files of {os.path.dirname(os.__file__)} (every 5th re-encoded with CRLF, every 5th with a BOM)",
-            max_cost=(60_000_000 if quick else 80_000_000),
+            max_cost=(60_000_000 if quick else 80_000_000), fold_cost=(12_000_000 if quick else 40_000_000),
             tr_note="; files whose (size x calls) exceeds the replay budget are judged by the oracle only")
     return out
 
@@ -1045,7 +1166,7 @@ def search(ctx, disagreements, bins):
     reqs = []
     for e in disagreements[:20]:
         ws = e["request"].split()
-        if ws[0] == "trace":
+        if ws[0] in ("trace", "fold"):
             reqs.append(f"locate {ws[2]} {ws[3]}")
         elif ws[0] == "locseq":
             t = unhex(ws[2])
